@@ -432,6 +432,62 @@ fn failing_and_slow_device(rep: &mut Report) {
             }
         }
     }
+    // (a1) the kernel accepts only part of a write (file size limit reached in
+    // the middle of it; SIGXFSZ ignored so the following write fails with EFBIG):
+    // whatever work() answers, it must not have consumed more than the file holds.
+    {
+        rep.eval();
+        rep.count("short_write_cases", 1);
+        let replay = json!({"part": "short-write"});
+        let dir = tempfile::tempdir().expect("tempdir");
+        let path = dir.path().join("limited.bin");
+        let (w, r) = new_stream::<u8>();
+        let total = 300_000usize;
+        let limit = 100_000u64;
+        match FileSink::new(r, &path, Mode::Overwrite) {
+            Err(e) => rep.inconclusive(format!("cannot create {path:?}: {e}")),
+            Ok(mut sink) => {
+                {
+                    let mut wb = w.write_buf().unwrap();
+                    for (i, b) in wb.slice()[..total].iter_mut().enumerate() {
+                        *b = (i % 251) as u8;
+                    }
+                    wb.produce(total, &[]);
+                }
+                let mut old = libc::rlimit { rlim_cur: 0, rlim_max: 0 };
+                unsafe {
+                    libc::getrlimit(libc::RLIMIT_FSIZE, &mut old);
+                    libc::signal(libc::SIGXFSZ, libc::SIG_IGN);
+                    let lim = libc::rlimit { rlim_cur: limit, rlim_max: old.rlim_max };
+                    libc::setrlimit(libc::RLIMIT_FSIZE, &lim);
+                }
+                rec::install(true);
+                rec::clear();
+                let res = catch(|| sink.work().map(|_| ()).map_err(|e| format!("{e}")));
+                let consumed: usize = rec::take().iter().map(|r| if let Ev::Consume { n, .. } = r.ev { n } else { 0 }).sum();
+                unsafe {
+                    libc::setrlimit(libc::RLIMIT_FSIZE, &old);
+                    libc::signal(libc::SIGXFSZ, libc::SIG_DFL);
+                }
+                let on_disk = std::fs::metadata(&path).map(|m| m.len() as usize).unwrap_or(0);
+                match res {
+                    Err(p) => rep.violation("C17|short-write|panic", format!("work() panicked: {p}"), replay),
+                    Ok(r) => {
+                        if consumed > on_disk {
+                            rep.violation(
+                                "C17|short-write|consumed-samples-that-are-not-in-the-file",
+                                format!("the kernel accepted {on_disk} of {total} bytes (file size limit) and work() returned {r:?}, yet {consumed} samples were consumed"),
+                                replay,
+                            );
+                        } else {
+                            rep.count("short_write_consumed_at_most_what_is_on_disk", 1);
+                        }
+                    }
+                }
+                drop(sink);
+            }
+        }
+    }
     // (a2) two sinks appending to one file: "append keeps existing content" also
     // when that content was written (by the other sink) after this sink was opened.
     {
@@ -576,7 +632,7 @@ fn failing_and_slow_device(rep: &mut Report) {
 
 pub fn main(opts: &Opts) -> Report {
     let mut rep = Report::new("C17");
-    rep.rule = "modes: {Create, Overwrite, Append} x {absent, empty, non-empty, directory, unwritable} x {FileSink, NoCopyFileSink}, each case in a child process running as uid 65534 (root ignores mode bits), compared with the documented table (exhaustive, 30 cases); crash points: a child streams unique samples/records through a one-page stream into the sink from a feeder thread while the main thread loops work() and reports, after every return, the cumulative count consumed by returned calls with one write(2); the parent SIGKILLs after a seeded number of reports plus a seeded delay; the file must be a prefix of the serialised stream holding at least the last acknowledged count; a sink on /dev/full (every write fails) must consume nothing, two sinks appending alternately to one file must leave every piece in call order, and a sink on a FIFO that accepts one pipe buffer and then stalls must not have acknowledged more than the device accepted while its work() call is blocked; distinct = (acknowledged, bytes on disk) pairs".into();
+    rep.rule = "modes: {Create, Overwrite, Append} x {absent, empty, non-empty, directory, unwritable} x {FileSink, NoCopyFileSink}, each case in a child process running as uid 65534 (root ignores mode bits), compared with the documented table (exhaustive, 30 cases); crash points: a child streams unique samples/records through a one-page stream into the sink from a feeder thread while the main thread loops work() and reports, after every return, the cumulative count consumed by returned calls with one write(2); the parent SIGKILLs after a seeded number of reports plus a seeded delay; the file must be a prefix of the serialised stream holding at least the last acknowledged count; a sink on /dev/full (every write fails) must consume nothing, a sink whose write is cut short by the file size limit must not have consumed more than the file holds, two sinks appending alternately to one file must leave every piece in call order, and a sink on a FIFO that accepts one pipe buffer and then stalls must not have acknowledged more than the device accepted while its work() call is blocked; distinct = (acknowledged, bytes on disk) pairs".into();
     rep.assume("durability means 'in the file as seen after SIGKILL' (page cache), not power-loss durability");
     rep.exhaustive = Some(false);
     if opts.shard == 0 {
